@@ -87,11 +87,12 @@ def _unique_objects(tasks):
 
 
 def _unique_tasks(tasks):
+    # Unique by object, not by id: detached tasks of different trees may share an id
     m = set()
     res = []
     for t in tasks:
-        if t.id not in m:
-            m.add(t.id)
+        if id(t) not in m:
+            m.add(id(t))
             res.append(t)
 
     return res
